@@ -25,3 +25,11 @@ package clos
 //@   property C12
 //@   on-call Eval#2 initform-only-for-unfilled-slot: !has(nameMap, k)
 //@   on-call Eval#1 default-only-for-unfilled-slot: !has(nameMap, sd.name)
+
+// ---------------------------------------------------------------------------
+// C17: re-asserting synchronization on an instance that is synchronized
+// already must not replace the mutex other routines hold.
+//@ pure-method Instance.Synchronized
+//@ func clos.(*SetSynchronized).Call
+//@   property C17
+//@   on-call SetSynchronized keeps-live-mutex: $arg0 ==> !Synchronized(inst)
